@@ -86,6 +86,8 @@ def gOps (rd : Heap → Heap) : Ops Heap Obj Atom where
   toInt := atomToInt
   isIterable s v := isStrBytesA v || (nodeOf (rd s) v).isSome
   isStrBytes _ v := isStrBytesA v
+  isStr _ v := match v with | .atom (.str _) => true | _ => false
+  isBytes _ v := match v with | .atom (.bytes _) => true | _ => false
   isMapping s v := kindIn (rd s) v (· == .dict)
   isSequence s v := isStrBytesA v || kindIn (rd s) v (fun k => k == .list || k == .tuple)
   isSet s v := kindIn (rd s) v Kind.isSet
